@@ -63,3 +63,22 @@ Fixpoint trun (s : list (nat * fstate)) (t : list (nat * tev)) : list bool :=
   | (tid, TProbe) :: r => fvar (tget s tid) :: trun s r
   | (tid, TEv e) :: r => trun ((tid, fstep (tget s tid) e) :: s) r
   end.
+
+(* observations of one thread in a multi-thread script, and the single-thread machine on its own events *)
+Fixpoint tprobes (tid : nat) (s : list (nat * fstate)) (t : list (nat * tev)) : list bool :=
+  match t with
+  | [] => []
+  | (k, TProbe) :: r => if Nat.eqb k tid then fvar (tget s k) :: tprobes tid s r else tprobes tid s r
+  | (k, TEv e) :: r => tprobes tid ((k, fstep (tget s k) e) :: s) r
+  end.
+Fixpoint project (tid : nat) (t : list (nat * tev)) : list tev :=
+  match t with
+  | [] => []
+  | (k, x) :: r => if Nat.eqb k tid then x :: project tid r else project tid r
+  end.
+Fixpoint fprobes (s : fstate) (t : list tev) : list bool :=
+  match t with
+  | [] => []
+  | TProbe :: r => fvar s :: fprobes s r
+  | TEv e :: r => fprobes (fstep s e) r
+  end.
